@@ -13,7 +13,24 @@ Configuration = (max, bar width, format, verbosity, min seconds between redraws,
 Output kinds: "ansi" Output(AnsiFormatter(forced=True)), "plain" Output(PlainFormatter()), "section"
 (a SectionOutput of a forced-ANSI output, COLUMNS=20, a sentinel row above), "quiet" / "quiet-plain" /
 "quiet-section" (the same three after set_quiet(True)).
-What is enumerated per tier is said in main() (PARTS) and written to the evidence.
+Formats: "default" (what the bar picks for the output's verbosity: normal / verbose / very verbose / debug and
+their _nomax variants), "msg" (one line with %message%), "two" (two lines, %message% on the second); the custom
+formats come in a variant without %max%/%percent% for configurations whose maximum is 0 (= unknown).
+
+What is enumerated (plan(); every part is complete for its alphabet and depth, the numbers go to the evidence):
+    broad        the configuration product x all operations x all clock advances, depth 2
+    broad-3      (thorough) a covering subset of it, depth 3
+    layout, layout-deep, layout-zero
+                 the message formats on ansi/plain/section with clock advances {0, 200 ms} (throttled / drawn)
+                 or none, all operations, depth 3..5 (thorough 4..7)
+    timing       start/advance/set_progress(max)/display/finish x all clock advances, depth 4 (thorough 6)
+    timing-elapsed (thorough) the same on formats with %elapsed%, exact clock differences, depth 4
+    ramp         deterministic long histories: every set_progress(s), s in 0..max+2, as a one-operation history;
+                 start, advance(k) ... past the maximum, finish for k in {1,3} x each clock advance; three-operation
+                 histories around finish; max in {0,1,3,10,50,200} in both tiers
+    xcheck       cross-checks of the deduplication (see below)
+No part can close: the maximum grows with every advance beyond it and the bar counts its writes, so the state
+graph is infinite.  broad, ramp and xcheck run first; the deeper parts run only if those are silent.
 
 Oracle (only what the statement demands; see "not demanded" below):
 * every operation's bytes have the shape of at most one frame for that output kind
